@@ -18,6 +18,44 @@ type fnCase struct {
 	Alias bool   `json:"alias,omitempty"`
 	Zero  bool   `json:"zero,omitempty"` // Extract: the catalog stores the zero value under its first key; Merge: under every other key
 	Elem  string `json:"elem,omitempty"` // Concatenate: element type (codec)
+	Hist  int    `json:"hist,omitempty"` // Merge, Extract: how the catalogs got their content (see catalogWithPast)
+}
+
+// catalogWithPast fills a catalog through a history: 0 = set the pairs on a fresh catalog; 1 = two other keys
+// come first, every observer is used, the two keys are removed again; 2 = the catalog holds other keys, every
+// observer is used, RemoveAll, then the pairs are set.  The content is the same in all three cases.
+func catalogWithPast(hist int, n int, fill func(cat col.CatalogLike[int, int])) col.CatalogLike[int, int] {
+	C := col.Catalog[int, int](lib.Notation())
+	cat := C.Make()
+	observe := func() {
+		keys := cat.GetKeys()
+		_ = cat.GetValues(keys)
+		_, _, _ = cat.AsArray(), cat.GetSize(), cat.IsEmpty()
+		for it := cat.GetIterator(); it.HasNext(); {
+			it.GetNext()
+		}
+		_ = C.Extract(cat, keys)
+		_ = C.Merge(cat, cat)
+	}
+	switch hist {
+	case 1:
+		cat.SetValue(90, 9)
+		cat.SetValue(91, 9)
+		fill(cat)
+		observe()
+		cat.RemoveValue(91)
+		cat.RemoveValue(90)
+	case 2:
+		for i := 0; i < max(n, 2); i++ {
+			cat.SetValue(80+i, 8)
+		}
+		observe()
+		cat.RemoveAll()
+		fill(cat)
+	default:
+		fill(cat)
+	}
+	return cat
 }
 
 func pairsString(ps []kv) string {
@@ -191,16 +229,19 @@ func execFnOther(c fnCase, _ core.Source) (res core.Result) {
 	case "Merge":
 		C := col.Catalog[int, int](n)
 		mk := func(keys []int, operand int) (col.CatalogLike[int, int], []kv) {
-			cat := C.Make()
 			pairs := []kv{}
 			for _, k := range keys {
 				v := 100*operand + k
 				if c.Zero && (k+operand)%2 == 0 {
 					v = 0 // a present key that stores the zero value
 				}
-				cat.SetValue(k, v)
 				pairs = append(pairs, kv{k, v})
 			}
+			cat := catalogWithPast(c.Hist, len(pairs), func(cat col.CatalogLike[int, int]) {
+				for _, q := range pairs {
+					cat.SetValue(q.K, q.V)
+				}
+			})
 			return cat, pairs
 		}
 		a, pa := mk(c.A, 1)
@@ -291,16 +332,19 @@ func execFnOther(c fnCase, _ core.Source) (res core.Result) {
 		}
 	case "Extract":
 		C := col.Catalog[int, int](n)
-		cat := C.Make()
 		pa := []kv{}
 		for i, k := range c.A {
 			v := 100 + k
 			if c.Zero && i == 0 {
 				v = 0 // a present key that stores the zero value
 			}
-			cat.SetValue(k, v)
 			pa = append(pa, kv{k, v})
 		}
+		cat := catalogWithPast(c.Hist, len(pa), func(cat col.CatalogLike[int, int]) {
+			for _, q := range pa {
+				cat.SetValue(q.K, q.V)
+			}
+		})
 		want := []kv{}
 		absent, repeated := false, false
 		for _, k := range c.B {
@@ -386,6 +430,9 @@ func execFnOther(c fnCase, _ core.Source) (res core.Result) {
 		}
 	}
 	res.Classes = append(res.Classes, "fn-"+c.Fn)
+	if c.Hist > 0 {
+		res.Classes = append(res.Classes, fmt.Sprintf("operands-with-a-past-%d", c.Hist))
+	}
 	return
 }
 
@@ -430,6 +477,7 @@ func genFnExhaustive(s core.Source) fnCase {
 		}
 	case "Merge":
 		c.Zero = s.Choose(2, "zero") == 1
+		c.Hist = s.Choose(3, "hist")
 		c.A = enumOrderedSubset(s, 4, "a")
 		if s.Choose(2, "alias") == 1 {
 			c.Alias = true
@@ -439,6 +487,7 @@ func genFnExhaustive(s core.Source) fnCase {
 	case "Extract":
 		c.A = enumOrderedSubset(s, 3, "a") // keys 0..2 present (some of them), key 3.. absent
 		c.Zero = s.Choose(2, "zero") == 1
+		c.Hist = s.Choose(3, "hist")
 		c.B = enumList(s, 4, 3, "keys")
 	}
 	return c
@@ -454,11 +503,13 @@ func genFnRandom(s core.Source) fnCase {
 		c.B = enumList(s, 8, 12, "b")
 	case "Merge":
 		c.Zero = s.Choose(2, "zero") == 1
+		c.Hist = s.Choose(3, "hist")
 		c.A = enumOrderedSubset(s, 7, "a")
 		c.B = enumOrderedSubset(s, 7, "b")
 	case "Extract":
 		c.A = enumOrderedSubset(s, 6, "a")
 		c.Zero = s.Choose(2, "zero") == 1
+		c.Hist = s.Choose(3, "hist")
 		c.B = enumList(s, 8, 10, "keys")
 	}
 	if c.Alias {
